@@ -30,7 +30,8 @@ def RoundtripDomain (d : Desc) : Prop := roundtripDomain d = true
 
 instance (d : Desc) : Decidable (RoundtripDomain d) := inferInstanceAs (Decidable (roundtripDomain d = true))
 
-/-- no reader surgery: no written operator is AssignVariable / CallOnce (virtual output) or convolution-like (reshaped clones) -/
+/-- no reader surgery (`Roundtrip.opOk` for every written operator): none is AssignVariable / CallOnce (virtual output), and a
+convolution-like one has its weights (operand 1) present and not constant (no reshaped clones) -/
 def NoSurgery (d : Desc) : Prop := noSurgery d = true
 
 instance (d : Desc) : Decidable (NoSurgery d) := inferInstanceAs (Decidable (noSurgery d = true))
@@ -65,7 +66,8 @@ theorem read_write_roundtrip (d : Desc) (m : ModelT) (hd : RoundtripDomain d) (h
   obtain ⟨enum, _, h⟩ := bind_ok h
   exact (read_writeWith d enum m hd h).1
 
-/-- **read_write_roundtrip, without surgery.** If moreover no written operator is AssignVariable / CallOnce or convolution-like,
+/-- **read_write_roundtrip, without surgery.** If moreover no written operator is AssignVariable / CallOnce or convolution-like
+with constant weights,
 the reader accepts the file and builds the normal form, in which the operators are just the renumbered written operators
 (`normal_form_without_surgery`) and no tensor is added. -/
 theorem read_write_roundtrip_ok (d : Desc) (m : ModelT) (hd : RoundtripDomain d) (hs : NoSurgery d) (h : Writer.write d = .ok m) :
@@ -83,9 +85,9 @@ theorem read_writeWith_roundtrip (d : Desc) (enum : List Code) (m : ModelT) (hd 
 
 /-- without surgery the operator part of the normal form is the renumbered operator list; tensor list and virtual outputs are
 untouched -/
-theorem normal_form_without_surgery (ci : OpInfo) (all : List Nat) (b : Nat) (pl : List POp) (k : Nat) (T : List TensorD)
-    (h : ∀ p ∈ pl, OpSimple ci p) : normOps ci all b pl k T = .ok (pl.map (normROp ci all b), T, []) :=
-  normOps_simple ci all b pl k T h
+theorem normal_form_without_surgery (ci : OpInfo) (all : List Nat) (b : Nat) (T : List TensorD) (pl : List POp) (k : Nat)
+    (h : ∀ p ∈ pl, OpSimple ci all b T p) : normOps ci all b pl k T = .ok (pl.map (normROp ci all b), T, []) :=
+  normOps_simple ci all b T pl k h
 
 /-! ## non-vacuity: a description in the domain -/
 
@@ -142,6 +144,18 @@ example : (normalise demo2).toOption.map (fun nd => nd.subgraphs.map fun s => (s
   decide +kernel
 example : (normalise demo2).toOption.map (fun nd => nd.metadata.map fun md => (md.nameIsBytes, md.name, md.data.isSome))
     = some [(true, bytes "note", false), (true, velaVersionName, true), (true, omaName, true)] := by decide +kernel
+
+/-- `demo2` followed by a convolution whose weights are computed (not constant): still no surgery -/
+def demo4 : Desc :=
+  { demo2 with
+    tensors := demo2.tensors ++ [t "wdyn" [2, 1, 1, 2] "int8" (some q8) none 3 (some 128), t "u" [1, 4, 4, 2] "int8" (some q8) none 3 (some 160)]
+    subgraphs := demo2.subgraphs.map fun s => if s.cpu then
+      { s with ops := s.ops ++ [startup "Placeholder" 7, { conv with inputs := [some 3, some 7, none], outputs := [some 8] }]
+               originalInputs := [0, 4, 7], outputTensors := [6, 8] } else s }
+
+example : RoundtripDomain demo4 ∧ NoSurgery demo4 ∧
+    ((write demo4).toOption.bind fun m => (Reader.read demo4.version m).toOption) = (normalise demo4).toOption ∧
+    (normalise demo4).toOption.isSome = true := by decide +kernel
 
 /-! ## non-vacuity with surgery: constant convolution weights, a virtual output -/
 
